@@ -282,6 +282,8 @@ def run(chk):
     chk.note("shared_fields", shared)
     chk.note("lock_protected_helpers", sorted(f.qualname for f in mon.protected))
     chk.need("_mailbox" in shared, "C05: Mailbox._mailbox is no longer a shared field - anchor moved")
+    from ..rules import dropped_parameters
+    dropped_parameters(chk, repo, "C05.R11", [MAILBOX])
 
     r1_lockset(chk, repo, mon, funcs, set(shared))
     waits = wait_sites(mon)
